@@ -617,11 +617,21 @@ Proof.
   revert l. induction l' as [|y r IH]; intros l; cbn; split; intros H; inversion H; subst; constructor; try assumption; apply IH; assumption.
 Qed.
 
+Lemma Forall2_impl' {A B} (Q Q' : A -> B -> Prop) l l' : (forall a b, Q a b -> Q' a b) -> Forall2 Q l l' -> Forall2 Q' l l'.
+Proof. intros H F. induction F; constructor; auto. Qed.
+
 Lemma Forall2_split {A B} (Q : A -> B -> Prop) l l1 l2 : Forall2 Q l (l1 ++ l2) ->
   Forall2 Q (firstn (List.length l1) l) l1 /\ Forall2 Q (skipn (List.length l1) l) l2.
 Proof.
   revert l. induction l1 as [|y r IH]; intros l H; cbn in *; [split; [constructor | exact H]|].
   inversion H; subst. destruct (IH _ H4) as [I1 I2]. cbn. split; [constructor; assumption | exact I2].
+Qed.
+
+Lemma skipn_skipn' {A} b : forall a (l : list A), skipn a (skipn b l) = skipn (b + a) l.
+Proof.
+  induction b as [|b IH]; intros a l; [reflexivity|]. destruct l as [|x r]; cbn [skipn plus].
+  - destruct a; reflexivity.
+  - apply IH.
 Qed.
 
 Lemma read_reaction_total ignore remap smi rads contract :
@@ -647,16 +657,16 @@ Proof.
   apply (good_bind (fun a' => List.length a' = List.length (List.concat all))); [apply set_radicals_good|]. intros flat Hflat.
   pose proof (radicals_roles_good all flat Hflat) as RR.
   assert (RR' : Forall2 atoms_eq (radicals_roles all flat) (pR ++ pG ++ pP)).
-  { unfold all in RR. apply Forall2_map_r in RR. eapply Forall2_impl; [|exact RR].
+  { unfold all in RR. apply (proj1 (Forall2_map_r len_eq no_rad _ _)) in RR. eapply Forall2_impl'; [|exact RR].
     intros a p H. unfold atoms_eq, len_eq, no_rad in *. rewrite map_length in H. exact H. }
   destruct (Forall2_split _ _ _ _ RR') as [AR RR2].
   destruct (Forall2_split _ _ _ _ RR2) as [AG AP].
-  rewrite skipn_skipn in AP. rewrite (Nat.add_comm (List.length pG) (List.length pR)) in AP.
+  rewrite skipn_skipn' in AP.
   apply (good_bind (maps_ok (map (fun p => map map_of (p_atoms p)) pR) (map (fun p => map map_of (p_atoms p)) pP)
                             (map (fun p => map map_of (p_atoms p)) pG))); [apply pp_reaction_good|].
   intros [[mR mP] mG] [MR [MP MG]].
   assert (ME : forall ms ps, Forall2 len_eq ms (map (fun p => map map_of (p_atoms p)) ps) -> Forall2 maps_eq ms ps).
-  { intros ms ps H. apply Forall2_map_r in H. eapply Forall2_impl; [|exact H].
+  { intros ms ps H. apply (proj1 (Forall2_map_r len_eq (fun p => map map_of (p_atoms p)) _ _)) in H. eapply Forall2_impl'; [|exact H].
     intros m p Hm. unfold maps_eq, len_eq in *. rewrite map_length in Hm. exact Hm. }
   apply (good_bind (fun _ => True)).
   { pose proof (create_role_total ignore _ (mk_total pR mR _ (ME _ _ MR) AR WR)) as T. destruct (create_role ignore _); [exact I | exact T]. }
@@ -667,7 +677,7 @@ Proof.
   apply (good_bind (fun _ => True)).
   { pose proof (create_role_total ignore _ (mk_total pG mG _ (ME _ _ MG) AG WG)) as T. destruct (create_role ignore _); [exact I | exact T]. }
   intros rgt _.
-  destruct rc, prd, rgt; cbn; exact I.
+  destruct rc, prd, rgt; cbn; first [exact I | reflexivity].
 Qed.
 
 (* ---- str.split() *)
